@@ -330,6 +330,14 @@ impl<P: Prefix> PrefixSet<P> {
     }
 }
 
+#[cfg(feature = "verif-hooks")]
+impl<P> PrefixSet<P> {
+    /// Return a read-only snapshot of the internal node storage.
+    pub fn verif_snapshot(&self) -> crate::map::VerifSnapshot {
+        self.0.verif_snapshot()
+    }
+}
+
 impl<P: Prefix> Default for PrefixSet<P> {
     fn default() -> Self {
         Self::new()
